@@ -7,7 +7,7 @@ from vf import gen
 
 
 @st.composite
-def pred_cases(draw, max_teams=8, max_size=8, regimes=("generic", "generic", "corner", "team_corner", "equal_sums", "near_equal", "identical", "targeted", "dyadic"), kinds=None):
+def pred_cases(draw, max_teams=8, max_size=8, regimes=("generic", "generic", "corner", "team_corner", "equal_sums", "near_equal", "identical", "targeted", "dyadic", "int_typed"), kinds=None):
     cfg = draw(gen.configs(**({"kinds": kinds} if kinds else {})))
     sizes = draw(gen.shapes(max_teams=max_teams, max_size=max_size))
     teams, regime, info = draw(gen.team_values(cfg, sizes, tau_eff=0.0, regimes=list(regimes)))
